@@ -58,10 +58,6 @@ Proof.
   - simpl. rewrite (eqb_false_of_neq _ _ Hne). rewrite IH. rewrite <- app_assoc. reflexivity.
 Qed.
 
-(* what the decoder has seen after a complete encoded cell, expressed on the three possible terminators *)
-Definition after_cell (c : cell) (term : bytes) (rest : bytes) (rw : row) (acc : table) : option table :=
-  dec (term ++ rest) DStart [] rw acc.
-
 Lemma dec_quoted_comma s rest rw acc :
   dec (quote s ++ c_comma :: rest) DStart [] rw acc = dec rest DStart [] (Some s :: rw) acc.
 Proof.
